@@ -434,11 +434,37 @@ class ResultQuantifier(CanBehaveLikeAVariable[T], ABC):
          they are dropped as well.
         """
         self._reset_cache_()
+        nodes = self._nodes_reached_by_evaluation_
+        for node in nodes:
+            node._reset_only_my_cache_()
         if not completed:
-            for node in self._all_nodes_:
+            for node in nodes:
                 for cache in vars(node).values():
                     if isinstance(cache, IndexedCache):
                         cache.clear()
+
+    @property
+    def _nodes_reached_by_evaluation_(self) -> List[SymbolicExpression]:
+        """
+        The nodes of the expression tree together with the expressions that are evaluated without being part of it:
+        the selected expressions, the constructor arguments of variables, and the constraint expressions made from the
+        keyword arguments of variables.
+        """
+        reached = {}
+        stack = [self]
+        while stack:
+            node = stack.pop()
+            if id(node) in reached:
+                continue
+            reached[id(node)] = node
+            stack.extend(node._descendants_)
+            if isinstance(node, QueryObjectDescriptor):
+                stack.extend(node.selected_variables)
+            if isinstance(node, Variable):
+                stack.extend(node._child_vars_.values())
+                if node._kwargs_expression_ is not None:
+                    stack.append(node._kwargs_expression_)
+        return list(reached.values())
 
     def _process_result_(self, result: Dict[int, HashedValue]) -> TypingUnion[T, UnificationDict]:
         if isinstance(self._child_, Entity):
